@@ -303,58 +303,8 @@ def _parse_definer(cls):
 
 # ---- (c) ---------------------------------------------------------------------------------------------------
 def constructible_with_defaults():
-    """[(class, required kwargs)] - classes with at least one defaulted constructor argument."""
-    import inspect
-    out = []
-    so = objects.seed_objects()
-    for cls in classes.parsable_classes():
-        import enum
-        if issubclass(cls, enum.Enum):
-            continue
-        try:
-            sig = inspect.signature(cls.__init__)
-        except (TypeError, ValueError):
-            continue
-        params = [p for p in list(sig.parameters.values())[1:] if p.kind not in (p.VAR_POSITIONAL, p.VAR_KEYWORD)]
-        if not any(p.default is not inspect._empty for p in params):
-            continue
-        req = [p.name for p in params if p.default is inspect._empty]
-        seeds = so.get(cls, [])
-        kwargs = None
-        if not req:
-            kwargs = {}
-        else:
-            for s in seeds:
-                try:
-                    kwargs = {}
-                    for name in req:
-                        v = getattr(s, name) if hasattr(s, name) else getattr(s, '_' + name)
-                        kwargs[name] = v
-                    break
-                except AttributeError:
-                    kwargs = None
-        if kwargs is None:
-            continue
-        try:
-            cls(**kwargs)
-        except Exception:  # noqa - defaults alone are not a valid object: take None-defaulted fields from a seed
-            done = False
-            for s in seeds:
-                kw2 = dict(kwargs)
-                for p in params:
-                    if p.default is None and (hasattr(s, p.name) or hasattr(s, '_' + p.name)):
-                        kw2[p.name] = getattr(s, p.name) if hasattr(s, p.name) else getattr(s, '_' + p.name)
-                try:
-                    cls(**kw2)
-                    kwargs = kw2
-                    done = True
-                    break
-                except Exception:  # noqa
-                    continue
-            if not done:
-                continue
-        out.append((cls, kwargs, [p.name for p in params if p.default is not inspect._empty and p.name not in kwargs]))
-    return out
+    """[(class, required kwargs, defaulted argument names)] - see objects.constructible_with_defaults."""
+    return objects.constructible_with_defaults(objects.base_seed_objects())
 
 
 def in_place_mutations(v):
